@@ -36,3 +36,28 @@ pub fn point(name: &'static str, args: &[i64]) {
         h(name, args);
     }
 }
+
+/// Handler for durable side effects on files: `kind` is one of "created",
+/// "truncated", "msync", "fsync"; `path` names the file.
+pub type FileHandler = Arc<dyn Fn(&'static str, &std::path::Path) + Send + Sync>;
+
+static FILE_HANDLER: RwLock<Option<FileHandler>> = RwLock::new(None);
+
+/// Installs (or with `None` removes) the process-wide file-event handler.
+pub fn set_file_handler(h: Option<FileHandler>) {
+    let mut g = FILE_HANDLER.write().unwrap_or_else(|e| e.into_inner());
+    *g = h;
+}
+
+/// Called next to every explicit sync, truncation and creation of a database file,
+/// after the operation returned.
+#[inline]
+pub fn file_event(kind: &'static str, path: &std::path::Path) {
+    let h = {
+        let g = FILE_HANDLER.read().unwrap_or_else(|e| e.into_inner());
+        g.clone()
+    };
+    if let Some(h) = h {
+        h(kind, path);
+    }
+}
